@@ -910,7 +910,12 @@ func runProduct(run *vx.Run) {
 		maxIters int
 	}
 	var pcs []pc
-	uMain, uBounded := 6, 5
+	// 7 keys are the fewest with which a height-3 tree exists at fan-outs 3 and 4 (every node then
+	// holds a single key, so every delete cascades through merges of internal nodes)
+	uMain, uBounded := 7, 5
+	if fanout == 4 {
+		uMain = 6 // the 7-key product exceeds the quick tier's state cap at this fan-out
+	}
 	if fanout >= 5 {
 		uMain, uBounded = 8, 7
 	}
